@@ -146,13 +146,13 @@ pub fn check_amplification(out: &Outcome, obs: &mut Obs) -> Result<Summary, Fail
         // itself saw its datagrams (record order, not time stamps: a probe sent at the very instant a datagram arrives is
         // sent before it is credited); used only to tell the known "overshoot is forgotten" finding from any other way of
         // exceeding the limit. replica[k] = (credit before the k-th datagram to this address, credit when its burst started)
-        let replica: Vec<(u64, u64)> = {
+        let replay_credit = |from: &[SocketAddr]| -> Vec<(u64, u64)> {
             let mut v = vec![];
             let mut allowance = 0u64;
             let mut burst: (u64, u64) = (u64::MAX, 0);
             for r in out.recs.iter().filter(|r| r.ep == 0) {
                 match &r.ev {
-                    crate::rec::Ev::RxDatagram { remote, len, .. } if remote == c => allowance += 3 * *len as u64,
+                    crate::rec::Ev::RxDatagram { remote, len, .. } if from.contains(remote) => allowance += 3 * *len as u64,
                     crate::rec::Ev::TxDatagram { remote, len, .. } if remote == c && r.conn != u64::MAX => {
                         if burst.0 != r.t_us {
                             burst = (r.t_us, allowance);
@@ -165,6 +165,10 @@ pub fn check_amplification(out: &Outcome, obs: &mut Obs) -> Result<Summary, Fail
             }
             v
         };
+        let replica = replay_credit(&[*c]);
+        // the same counter when datagrams from the client's other addresses are credited to this path too (second finding)
+        let owner_of_c = clients.iter().position(|a| a == c).or_else(|| out.rebinds.iter().find(|(_, _, a)| a == c).map(|(_, i, _)| *i));
+        let replica_all = replay_credit(&owner_of_c.map(|i| addrs_of(i)).unwrap_or_else(|| vec![*c]));
         let mut k = 0usize;
         // only what a *connection* sends is subject to this limit: once the server's connection is gone (idle timeout,
         // close), packets from the client are answered by the endpoint with stateless resets, which have a rule of their
@@ -175,6 +179,7 @@ pub fn check_amplification(out: &Outcome, obs: &mut Obs) -> Result<Summary, Fail
             }
             let rx: u64 = arrivals.iter().take_while(|(t, _)| *t <= n.t_us).map(|(_, b)| *b).sum();
             let (allowance, burst_credit) = replica.get(k).copied().unwrap_or((0, 0));
+            let (allowance_all, burst_all) = replica_all.get(k).copied().unwrap_or((0, 0));
             k += 1;
             sum.server_datagrams_before_validation += 1;
             if *migrated {
@@ -198,7 +203,7 @@ pub fn check_amplification(out: &Outcome, obs: &mut Obs) -> Result<Summary, Fail
                 };
                 let key = if allowance > 0 || burst_credit > 0 {
                     "c11:amplification-limit-exceeded:overshoot-forgotten"
-                } else if rx_other > 0 && tx < 3 * (rx + rx_other) + 1500 {
+                } else if rx_other > 0 && (tx < 3 * (rx + rx_other) + 1500 || allowance_all > 0 || burst_all > 0) {
                     "c11:amplification-limit-exceeded:credit-from-other-address-during-handshake"
                 } else {
                     "c11:amplification-limit-exceeded"
